@@ -1,6 +1,7 @@
 //! hctl-conf: drives the real biodivine-hctl-model-checker code on generated inputs and records
 //! what happened as JSON for TLC. Judging is done by TLC only.
 mod enc;
+mod cli;
 mod sem;
 mod syn;
 
@@ -9,6 +10,15 @@ fn main() {
     let r = match args.get(1).map(|s| s.as_str()) {
         Some("sem") if args.len() == 4 => sem::run(&args[2], &args[3]),
         Some("syn") if args.len() == 4 => syn::run(&args[2], &args[3]),
+        Some("chars") if args.len() == 3 => std::fs::read_to_string(&args[2]).map_err(|e| e.to_string()).and_then(|t| {
+            let v: serde_json::Value = serde_json::from_str(&t).map_err(|e| e.to_string())?;
+            let out: Vec<serde_json::Value> = v.as_array().ok_or("list expected")?.iter().map(|s| syn::chars_of(s.as_str().unwrap_or(""))).collect();
+            println!("{}", serde_json::Value::Array(out));
+            Ok(())
+        }),
+        Some("arch") if args.len() == 5 => cli::arch(&args[2], &args[3], &args[4]),
+        Some("convert") if args.len() == 3 => cli::convert(&args[2]),
+        Some("readarch") if args.len() == 4 => cli::read_archive(&args[2], args[3].parse().unwrap_or(0)).map(|v| println!("{v}")),
         Some("dups") => { debug_dups(&args[2..]); Ok(()) }
         Some("probe") if args.len() == 3 => sem::probe(&args[2]),
         Some("describe") if args.len() == 4 => {
